@@ -613,7 +613,7 @@ func TestCheck(t *testing.T) {
 	r := mon.New("C17")
 	defer r.Flush()
 	if os.Getenv("VERIF_REPLAY") == "" {
-		r.Watchdog(60 * time.Second)
+		r.Watchdog(20 * time.Second)
 	}
 	byName := map[string]*acc{}
 	for i := range accessors {
